@@ -77,7 +77,7 @@ def gen_pool(r, tier, dc):
 ILLEGAL = [  # (cfg, source) — every one of these must be rejected with an error
     ("-", "0d6"), ("-", "(-1)d6"), ("-", "2d0"), ("-", "2d(-3)"), ("-", "2d6k0"), ("-", "2d6kl(-1)"),
     ("-", "2d6dh0"), ("-", "2d6dl(-2)"), ("-", "(1.5)d6"), ("-", "('a')d6"), ("-", "2d(1.5)"), ("-", "2d('x')"), ("-", "2d6k(1.5)"),
-    ("-", "(0)d(0)"), ("-", "3d6q0"),
+    ("-", "(0)d(0)"), ("-", "3d6q0"), ("-", "2d6max(1.5)"), ("-", "2d6min(1.5)"), ("-", "2d6min('a')"), ("-", "3d6k2max([1])"), ("-", "2dmax(2.5)"), ("-", "d6min(null)"),
     ("c", "b(-1)"), ("c", "p(-3)"),
     ("w", "0a5"), ("w", "20001a5"), ("w", "3a1"), ("w", "3a5m0"), ("w", "3a5k0"), ("w", "3a5q0"), ("w", "(-2)a5"),
     ("d", "0c5"), ("d", "3c1"), ("d", "3c5m0"), ("d", "20001c5"), ("d", "(-1)c5"), ("d", "3c0"),
